@@ -459,6 +459,10 @@ func replayOnce(worker, dir string, c caseDoc, strict bool, tag string) (caseDoc
 	if strict {
 		args = append(args, "-strict")
 	}
+	if m, _ := c["replay_mode"].(string); m == "process" && curEngine != "B" {
+		// the whole worker process is replayed up to and including the run of this case
+		args = []string{"-mode", "process", "-case", in, "-out", out}
+	}
 	if curEngine == "B" {
 		args = append([]string{"-test.timeout=0", "-test.run=^TestWorker$"}, args...)
 	}
@@ -645,6 +649,30 @@ func checkCmd(p *propCfg, tier, repo string, writeEvidence bool) int {
 		}
 		shrunk++
 		c, v, conf := shrinkAndConfirm(p, worker, dir, cases)
+		if c == nil && curEngine != "B" {
+			// Not reproducible from the case alone.  If the code under test keeps state in
+			// package-level variables across calls, the outcome of a run depends on the runs
+			// the worker process executed before it: replay that process (same seed, worker
+			// and run numbers) up to and including the run.  That is an exact reproduction too.
+			for i, pc := range cases {
+				if i >= 2 {
+					break
+				}
+				if _, ok := pc["process"]; !ok {
+					continue
+				}
+				d := clone(pc)
+				d["replay_mode"] = "process"
+				delete(d, "violation")
+				res, pv, err := replayOnce(worker, filepath.Join(dir, "shrink"), d, false, "process")
+				if err == nil && pv != nil && pv.key() == violOf(pc).key() {
+					res["replay_mode"] = "process"
+					res["replay_note"] = "reproduces only together with the runs its worker process executed before it (the code under test keeps state across calls in package-level variables); replayed by re-running that process: same VERIF_SEED, worker and run number"
+					c, v, conf = res, pv, "process"
+					break
+				}
+			}
+		}
 		if c == nil {
 			// could not be reproduced in a fresh process: machinery trouble, not a verdict
 			fmt.Fprintf(os.Stderr, "verifctl: violation %s did not reproduce in a fresh process (%s)\n", k, conf)
